@@ -63,10 +63,14 @@ func HarnessC09Host(st any) {
 	if !hostMode {
 		sym.Cover("host ignored (no hostname routes)")
 	}
+	// the reverse lookup (no parameter recording) decides hosts exactly like the request lookup
+	rr, rtsr := s.r.Reverse(method, host, path)
 	if want.route == nil {
 		sym.Assert(rte == nil, "no route matches this host and path, directly or slash-adjusted")
+		sym.Assert(rr == nil, "Reverse: no route matches this host and path, directly or slash-adjusted")
 		return
 	}
+	sym.Assert(rr != nil && rr.Pattern() == want.route.pattern && rtsr == want.tsr, "Reverse: hostname routes first (whole host), path-only routes as fallback")
 	sym.Assert(rte != nil, "a route matches this host and path")
 	if rte == nil {
 		return
